@@ -505,9 +505,13 @@ def planStep (env : Env) : Step := fun s =>
     else (s, [])
   ({ r.1 with core := { r.1.core with subStatus := .none } }, r.2)
 
+/-- does `C_::deepX` run the root head before the active sub-state?  **Translated from the source on every run**
+    (`Gen.headFirstCodes`). -/
+def headFirst (m : Method) : Bool := Gen.headFirstCodes.contains m.code
+
 def cycle (env : Env) (pre mid post : Method) : Step :=
   modify (fun s => { s with ts := .none }) ⋙
-  phase env pre true ⋙ phase env mid true ⋙ phase env post false ⋙
+  phase env pre (headFirst pre) ⋙ phase env mid (headFirst mid) ⋙ phase env post (headFirst post) ⋙
   (if env.cfg.plans then planStep env else skip) ⋙
   processRequest env
 
@@ -516,7 +520,8 @@ def react (env : Env) : Step := cycle env .preReact .react .postReact
 
 /-- `R_::query`: head then active state; nothing is written -/
 def query (env : Env) : Step := fun s =>
-  (deliver env .query 255 {} {} ⋙ deliver env .query s.core.active {} {}) s
+  (if headFirst .query then deliver env .query 255 {} {} ⋙ deliver env .query s.core.active {} {}
+   else deliver env .query s.core.active {} {} ⋙ deliver env .query 255 {} {}) s
 
 /-! ### external requests, task reports, plan edits -/
 
